@@ -1,14 +1,31 @@
 (** C31 -- C++ generated serializers agree with the Go serializers.
 
-    NO new theorem about the codecs: both the generated Go code (C01, C02) and the generated C++
-    code are tied, by correspondence runs, to the same TL1 model [enc1]/[dec1]
-    (TLV.Tl1.Tl1Model; theorems C01_roundtrip, C02_canonical_partial).  This file only restates
-    the consequence used by lib/checks/C31.py: two implementations that agree with the model on
-    an input agree with each other, and on the bytes written for a value they consume exactly
-    those bytes and write them back identically.  The check is correspondence-level:
-    `corr:C31:cpp` compares model / Go / C++ on the same `rw1` operations. *)
+    Part 1 (whole values, correspondence-level): both the generated Go code (C01, C02) and the
+    generated C++ code are tied, by correspondence runs, to the same TL1 model [enc1]/[dec1]
+    (TLV.Tl1.Tl1Model; theorems C01_roundtrip, C02_canonical_partial); two implementations that
+    agree with the model on an input agree with each other (`corr:C31:cpp`, `rw1` operations).
+
+    Part 2 (the C++ runtime, theorem-level): TLV.Cpp.CppModel transcribes the C++ `basictl`
+    runtime (tl_istream / tl_ostream of io_streams.{h,cpp}, the copy tlgen emits) statement by
+    statement, including the connector buffer boundaries, the fast and slow paths and the
+    out-of-order writes of the fast paths; its constants are regenerated from both copies of the
+    C++ source on every run (T-const).  [C31_cpp_primitives_equal_go]: every primitive the
+    generator calls reads / writes exactly what the Go primitive ([dec_prim] / [enc_prim], C33)
+    does, for every input and every buffer split -- outside two precisely stated input classes
+    where C++ genuinely differs, proved as [_refuted] theorems.  `corr:C31:cpp-prim` runs the
+    extracted C++ model against the compiled runtime.
+
+    Part 3 (the generated C++ code, theorem-level): TLV.Cpp.CppCodecModel transcribes the read / write
+    rules of the C++ generator (field order, field masks, boxed tags, union tag switch, vector count
+    without sanity check, std::map dictionaries, tuple length check) over the schema IR, on top of
+    the runtime model.  [C31_cpp_codec_equal_go]: the generated reader -- over every split of the
+    input, with the sticky error field and bool_read's continue-after-error -- observes a flat
+    function of the unread input that is Go's [dec1] with the C++ string reader; C++ reads whatever
+    Go reads from inputs below 2^24 bytes; the generated writer appends Go's bytes.
+    [C31_cpp_reads_and_rewrites_go_bytes] is the property itself for the model of the C++ side.
+    `corr:C31:cpp-codec` runs the extracted [cpp_rw1] against the compiled generated C++. *)
 From Coq Require Import List NArith Bool.
-From TLV Require Import Prim.PrimModel Tl1.Tl1Model Build.BuildCpp.
+From TLV Require Import Prim.PrimModel Prim.PrimProofs Tl1.Tl1Model Build.BuildCpp Cpp.CppModel Cpp.CppProofs Cpp.CppCodecModel Cpp.CppCodecProofs.
 Import ListNotations.
 Open Scope N_scope.
 
@@ -51,3 +68,206 @@ Definition c31_schema : schema :=
 Example C31_ex : rw1_model 10 false c31_schema 2 true [8; 0; 0; 0; 2; 104; 105; 0; 7; 7]
                  = RwOk 8 (Some [8; 0; 0; 0; 2; 104; 105; 0]).
 Proof. vm_compute. reflexivity. Qed.
+
+(** * Part 2: the C++ runtime *)
+
+(** Every TL1 primitive as the C++ generator calls it, over a stream split into arbitrary non-empty
+    connector buffers ([iwf]/[owf]: no earlier error, no empty buffer before the end):
+    (1) reading observes exactly [dec_prim] on the unread input -- value, remaining input, error
+        class -- provided the input is not in one of the two classes of [str_input_ok] (a huge-form
+        string, a medium-form string of <= 253 bytes) where C++ is proved to differ below;
+        [prim_wf]: the two tags of a Bool differ (guaranteed by [wf_schema]);
+    (2) writing a value that Go encodes as [enc] appends exactly [enc], whatever garbage the output
+        buffers held and wherever they are split, provided there is room for it and a string is at
+        most TL_BIG_STRING_LEN bytes ([str_value_ok]); with less room the call fails with EOF;
+    (3) a value the C++ parameter type cannot hold has no Go encoding either. *)
+Theorem C31_cpp_primitives_equal_go :
+  (forall p s, iwf s -> bytes_ok (i_rest s) -> prim_wf p -> str_input_ok p (i_rest s) ->
+     iobs (cpp_read_prim p s) = dec_prim p (i_rest s))
+  /\ (forall p v enc, enc_prim p v = Some enc -> str_value_ok p v -> forall o, owf o ->
+       exists r, cpp_write_prim p v o = Some r /\
+                 if o_room o <? lenN enc then ofail r else ospec r o enc)
+  /\ (forall p v o, cpp_write_prim p v o = None -> enc_prim p v = None).
+Proof. exact (conj cpp_read_prim_eq_go (conj cpp_write_prim_eq_go cpp_write_prim_none)). Qed.
+Print Assumptions C31_cpp_primitives_equal_go.
+
+(** observable form of (2): what harness/cpp prints for a write with enough room *)
+Theorem C31_cpp_write_observed : forall p v enc o,
+  enc_prim p v = Some enc -> str_value_ok p v -> owf o -> lenN enc <= o_room o ->
+  match cpp_write_prim p v o with Some r => oobs r | None => None end = Some (o_done o ++ enc).
+Proof. exact cpp_write_prim_obs. Qed.
+Print Assumptions C31_cpp_write_observed.
+
+(** string_read on EVERY input (no guard): the C++ reader is [cpp_str_flat] of the unread bytes *)
+Theorem C31_cpp_string_read_all_inputs : forall s, iwf s -> bytes_ok (i_rest s) ->
+  iobs (cpp_read_prim PString s) = match cpp_str_flat (i_rest s) with
+                                   | Ok (b, r) => Ok (VStr b, r) | Eof => Eof | Reject => Reject end.
+Proof. exact cpp_read_string_general. Qed.
+Print Assumptions C31_cpp_string_read_all_inputs.
+
+(** ... and [cpp_str_flat] is Go's StringRead except on the two classes *)
+Theorem C31_cpp_string_read_vs_go : forall r, bytes_ok r ->
+  str_huge_form r = false -> str_medium_noncanonical r = false -> cpp_str_flat r = str1_r r.
+Proof. exact cpp_str_flat_eq_go. Qed.
+Print Assumptions C31_cpp_string_read_vs_go.
+
+(** F32: "C++ rejects every byte string Go rejects" is FALSE: the medium form with a length that fits
+    the tiny form is rejected by Go and read by C++ (exact behaviour: the body is read as usual) *)
+Theorem C31_cpp_rejects_what_go_rejects_refuted :
+  exists r v rest, bytes_ok r /\ str1_r r = Reject /\ cpp_str_flat r = Ok (v, rest).
+Proof. exact cpp_string_read_accepts_noncanonical_refuted. Qed.
+Print Assumptions C31_cpp_rejects_what_go_rejects_refuted.
+
+Theorem C31_cpp_medium_noncanonical_exact : forall x1 x2 x3 r4,
+  le_val [x1; x2; x3] <= tinyStringLen ->
+  str1_r (mediumStringMarker :: x1 :: x2 :: x3 :: r4) = Reject /\
+  cpp_str_flat (mediumStringMarker :: x1 :: x2 :: x3 :: r4)
+  = str1_body (le_val [x1; x2; x3]) (le_val [x1; x2; x3]) r4.
+Proof. exact cpp_str_flat_medium_noncanonical. Qed.
+Print Assumptions C31_cpp_medium_noncanonical_exact.
+
+(** "C++ reads the bytes Go wrote" is FALSE for strings of 2^24 .. 2^56-1 bytes: Go writes and reads
+    back the huge form, C++ answers sequence_length for every input starting with 0xff ... *)
+Theorem C31_cpp_reads_what_go_writes_refuted :
+  (exists s : bytes, maxMediumStringLen < lenN s <= maxHugeStringLen) /\
+  (forall s rest, maxMediumStringLen < lenN s <= maxHugeStringLen ->
+     exists b, str1_w s = Some b /\ str1_r (b ++ rest) = Ok (s, rest) /\ cpp_str_flat (b ++ rest) = Reject).
+Proof. exact (conj huge_string_exists cpp_string_read_rejects_huge_refuted). Qed.
+Print Assumptions C31_cpp_reads_what_go_writes_refuted.
+
+(** ... and the C++ writer refuses them *)
+Theorem C31_cpp_writes_what_go_writes_refuted : exists value, forall o, o_err o = None ->
+  str1_w value <> None /\ oobs (cpp_string_write value o) = None.
+Proof. exact cpp_string_write_refuses_huge_refuted. Qed.
+Print Assumptions C31_cpp_writes_what_go_writes_refuted.
+
+(** T-const: pkg/basictl_cpp and the copy embedded in internal/tlcodegen/helpers_cpp_generated.go carry
+    the same constants and literals; the C++ limits are Go's tiny / medium limits *)
+Theorem C31_cpp_runtime_copies_agree :
+  pkg_TL_MAX_TINY_STRING_LEN = cpp_TL_MAX_TINY_STRING_LEN /\ pkg_TL_BIG_STRING_LEN = cpp_TL_BIG_STRING_LEN
+  /\ pkg_TL_BIG_STRING_MARKER = cpp_TL_BIG_STRING_MARKER
+  /\ cpp_TL_MAX_TINY_STRING_LEN = tinyStringLen /\ cpp_TL_BIG_STRING_LEN = maxMediumStringLen
+  /\ cpp_TL_BIG_STRING_MARKER = mediumStringMarker.
+Proof. repeat split. Qed.
+Print Assumptions C31_cpp_runtime_copies_agree.
+
+Theorem C31_cpp_runtime_copies_agree_all : (* every extracted literal and comparison operator, both copies *)
+  [pkg_TL_MAX_TINY_STRING_LEN; pkg_TL_BIG_STRING_LEN; pkg_TL_BIG_STRING_MARKER; pkg_TL_INT32_SIZE; pkg_TL_UINT32_SIZE;
+   pkg_TL_INT64_SIZE; pkg_TL_FLOAT32_SIZE; pkg_TL_FLOAT64_SIZE; pkg_nat_read_size; pkg_int_read_size; pkg_long_read_size;
+   pkg_float_read_size; pkg_double_read_size; pkg_nat_write_size; pkg_int_write_size; pkg_long_write_size;
+   pkg_float_write_size; pkg_double_write_size; pkg_sr_len_shift; pkg_sr_pad_mask; pkg_sr_len_byte; pkg_sr_word;
+   pkg_sr_ones; pkg_sr_byte_bits; pkg_sw_len_shift; pkg_sw_pad_mask; pkg_sw_hdr_size; pkg_sw_tiny_hdr_size;
+   pkg_sw_len_byte; pkg_sw_word; pkg_fp_word_init; pkg_sr_cmp_big; pkg_sr_cmp_huge; pkg_sr_cmp_fit; pkg_sr_cmp_pad;
+   pkg_sw_cmp_tiny; pkg_sw_cmp_big; pkg_sw_cmp_fit; pkg_fp_cmp]
+  = [cpp_TL_MAX_TINY_STRING_LEN; cpp_TL_BIG_STRING_LEN; cpp_TL_BIG_STRING_MARKER; cpp_TL_INT32_SIZE; cpp_TL_UINT32_SIZE;
+     cpp_TL_INT64_SIZE; cpp_TL_FLOAT32_SIZE; cpp_TL_FLOAT64_SIZE; cpp_nat_read_size; cpp_int_read_size; cpp_long_read_size;
+     cpp_float_read_size; cpp_double_read_size; cpp_nat_write_size; cpp_int_write_size; cpp_long_write_size;
+     cpp_float_write_size; cpp_double_write_size; cpp_sr_len_shift; cpp_sr_pad_mask; cpp_sr_len_byte; cpp_sr_word;
+     cpp_sr_ones; cpp_sr_byte_bits; cpp_sw_len_shift; cpp_sw_pad_mask; cpp_sw_hdr_size; cpp_sw_tiny_hdr_size;
+     cpp_sw_len_byte; cpp_sw_word; cpp_fp_word_init; cpp_sr_cmp_big; cpp_sr_cmp_huge; cpp_sr_cmp_fit; cpp_sr_cmp_pad;
+     cpp_sw_cmp_tiny; cpp_sw_cmp_big; cpp_sw_cmp_fit; cpp_fp_cmp].
+Proof. exact cpp_runtime_copies_agree. Qed.
+
+(** Non-vacuity.  The streams the harness builds satisfy the hypotheses ... *)
+Example C31_cpp_ex_wf : iwf (istream_chunked 3 [2; 104; 105; 0; 7]) /\ i_rest (istream_chunked 3 [2; 104; 105; 0; 7]) = [2; 104; 105; 0; 7].
+Proof. exact (istream_chunked_wf 3 [2; 104; 105; 0; 7]). Qed.
+(** ... a tiny string split over two buffers is read through the slow path, the same bytes in one
+    buffer through the fast path, with the same result ... *)
+Example C31_cpp_ex_read_slow : iobs (cpp_read_prim PString (istream_chunked 3 [2; 104; 105; 0; 7])) = Ok (VStr [104; 105], [7]).
+Proof. vm_compute. reflexivity. Qed.
+Example C31_cpp_ex_read_fast : iobs (cpp_read_prim PString (istream_chunked 0 [2; 104; 105; 0; 7])) = Ok (VStr [104; 105], [7]).
+Proof. vm_compute. reflexivity. Qed.
+(** ... bad padding is rejected on both paths, truncation is eof ... *)
+Example C31_cpp_ex_read_badpad : iobs (cpp_read_prim PString (istream_chunked 0 [2; 104; 105; 1; 7])) = Reject
+                              /\ iobs (cpp_read_prim PString (istream_chunked 2 [2; 104; 105; 1; 7])) = Reject
+                              /\ iobs (cpp_read_prim PString (istream_chunked 2 [2; 104; 105])) = Eof.
+Proof. vm_compute. auto. Qed.
+(** ... the F32 witness, on the stream level ... *)
+Example C31_cpp_ex_f32 : iobs (cpp_read_prim PString (istream_chunked 0 [254; 1; 0; 0; 65; 0; 0; 0])) = Ok (VStr [65], [])
+                       /\ dec_prim PString [254; 1; 0; 0; 65; 0; 0; 0] = Reject.
+Proof. vm_compute. auto. Qed.
+(** ... and a write through three garbage-filled buffers of 1, 2 and 5 bytes (slow path), and through
+    one buffer (fast path: padding word first, then length, then content) gives Go's bytes. *)
+Example C31_cpp_ex_write :
+  oobs (cpp_string_write [104; 105] (mkO [] [] [[170]; [170; 170]; [170; 170; 170; 170; 170]] None)) = Some [2; 104; 105; 0]
+  /\ oobs (cpp_string_write [104; 105] (mkO [9] [170; 170; 170; 170; 170] [] None)) = Some [9; 2; 104; 105; 0]
+  /\ enc_prim PString (VStr [104; 105]) = Some [2; 104; 105; 0]
+  /\ oobs (cpp_string_write [104; 105] (mkO [] [170; 170; 170] [] None)) = None.
+Proof. vm_compute. auto. Qed.
+
+(** * Part 3: the generated C++ code *)
+
+(** (1) whatever the Go reader (no length sanity: the C++ side has none, F31) accepts from an input of
+        at most 2^24-1 bytes, the generated C++ reader accepts: same value, same unread rest, no error,
+        however the input is split into buffers;
+    (2) on EVERY input the generated C++ reader, if it terminates within the fuel, observes exactly
+        [gdec1 cpp_prim_flat] of the unread bytes (value, rest, error class) ...
+    (3) ... it does terminate whenever that function accepts or hits eof, and
+    (4) [gdec1] with Go's primitive reader IS Go's [dec1]: the only difference between the two sides is the
+        string reader, characterised in Part 2;
+    (5) the generated writer, for a value Go encodes as [enc] whose strings are at most TL_BIG_STRING_LEN
+        long, appends exactly [enc] (EOF when the connector has less room). *)
+Theorem C31_cpp_codec_equal_go : forall s, wf_schema s = true ->
+  (forall fuel t bare ps st v rest, iwfb st -> lenN (i_rest st) <= maxMediumStringLen ->
+     dec1 fuel false s t bare ps (i_rest st) = Some (Ok (v, rest)) ->
+     exists st', cpp_dec1 fuel s t bare ps st = Some (true, v, st') /\ iwf st' /\ i_rest st' = rest)
+  /\ (forall fuel t bare ps st r f, iwfb st -> cpp_dec1 fuel s t bare ps st = Some r ->
+       gdec1 cpp_prim_flat fuel s t bare ps (i_rest st) = Some f -> iobs r = f)
+  /\ (forall fuel t bare ps st f, iwfb st ->
+       gdec1 cpp_prim_flat fuel s t bare ps (i_rest st) = Some f -> f <> Reject ->
+       exists r, cpp_dec1 fuel s t bare ps st = Some r)
+  /\ (forall fuel t bare ps b, gdec1 dec_prim fuel s t bare ps b = dec1 fuel false s t bare ps b)
+  /\ (forall v t bare ps enc, enc1 false s t bare ps v = Some enc -> strs_short v = true ->
+       forall o, owf o -> exists r, cpp_enc1 s t bare ps v o = Some r /\
+                                    if o_room o <? lenN enc then ofail r else ospec r o enc).
+Proof.
+  intros s Hwf. split; [exact (cpp_reads_what_go_reads s Hwf)|]. split; [exact (cpp_dec1_observes s Hwf)|].
+  split; [exact (cpp_dec1_defined s Hwf)|]. split; [exact (gdec1_go s)|]. exact (cpp_enc1_spec s).
+Qed.
+Print Assumptions C31_cpp_codec_equal_go.
+
+(** the property, for the model of the C++ side: the bytes the Go writer produced for a value (followed by
+    anything), fed to what harness/cpp/driver.cpp does (`rw1`: read a fresh object, write it back), are
+    consumed exactly and written back identically -- for inputs below 2^24 bytes *)
+Theorem C31_cpp_reads_and_rewrites_go_bytes : forall s, wf_schema s = true ->
+  forall v fuel t bare b rest,
+    (vdepth v <= fuel)%nat ->
+    enc1 false s t bare [] v = Some b ->
+    bytes_ok (b ++ rest) -> lenN (b ++ rest) <= maxMediumStringLen -> strs_short v = true ->
+    cpp_rw1 fuel s t bare (b ++ rest) = CRwOk (length b) (Some b).
+Proof. exact cpp_rw1_written. Qed.
+Print Assumptions C31_cpp_reads_and_rewrites_go_bytes.
+
+(** "the generated C++ code rejects what Go rejects" is FALSE (F32 through a struct field) *)
+Theorem C31_cpp_codec_rejects_what_go_rejects_refuted :
+  exists s t b, wf_schema s = true /\ bytes_ok b /\
+    dec1 5 false s t true [] b = Some Reject /\
+    (exists v st', cpp_dec1 5 s t true [] (istream_of b) = Some (true, v, st') /\ i_err st' = None).
+Proof. exact cpp_codec_accepts_what_go_rejects_refuted. Qed.
+Print Assumptions C31_cpp_codec_rejects_what_go_rejects_refuted.
+
+(** a failing generated reader has always recorded an error: `return s.set_error_unknown_scenario()` after it
+    (emitted for struct / union typed fields) cannot be observed *)
+Theorem C31_cpp_failure_has_error : forall s fuel t bare ps st v st',
+  cpp_dec1 fuel s t bare ps st = Some (false, v, st') -> i_err st' <> None /\ i_set_error E_UNKNOWN st' = st'.
+Proof.
+  intros s fuel t bare ps st v st' H. split; [exact (cpp_fail_has_error s fuel t bare ps st v st' H)|].
+  exact (set_error_unknown_scenario_is_noop s fuel t bare ps st v st' H).
+Qed.
+Print Assumptions C31_cpp_failure_has_error.
+
+(** Non-vacuity on the C01 example schema: [cpp_rw1] accepts a written value (mask bit 3 set: the string field
+    is present), reads a foreign Bool tag with bool_read's return-true-but-error and still answers reject. *)
+Example C31_cpp_codec_ex : cpp_rw1 10 c31_schema 2 true [8; 0; 0; 0; 2; 104; 105; 0; 7; 7]
+                           = CRwOk 8 (Some [8; 0; 0; 0; 2; 104; 105; 0]).
+Proof. vm_compute. reflexivity. Qed.
+Example C31_cpp_codec_ex_hyp : enc1 false c31_schema 2 true [] (VStruct [Some (VNum 8); Some (VStr [104; 105])]) = Some [8; 0; 0; 0; 2; 104; 105; 0]
+                               /\ wf_schema c31_schema = true /\ strs_short (VStruct [Some (VNum 8); Some (VStr [104; 105])]) = true.
+Proof. vm_compute. auto. Qed.
+Definition c31_bool_schema : schema := [ TPrim (PBool 5 7); TPrim PNat; TStruct 11 [mkField 0 true None []; mkField 1 true None []] ].
+Example C31_cpp_codec_ex_bool :
+  cpp_dec1 5 c31_bool_schema 2 true [] (istream_of [9; 0; 0; 0; 1; 0; 0; 0])
+    = Some (true, VStruct [Some (VBool false); Some (VNum 1)], mkI [] [] (Some E_TAG))
+  /\ cpp_rw1 5 c31_bool_schema 2 true [9; 0; 0; 0; 1; 0; 0; 0] = CRwReject
+  /\ dec1 5 false c31_bool_schema 2 true [] [9; 0; 0; 0; 1; 0; 0; 0] = Some Reject.
+Proof. vm_compute. auto. Qed.
